@@ -223,6 +223,11 @@ def gen_manifest_case(ctx: ShardCtx) -> dict:
         ('scte35__program_id', str(rng.randrange(1, 5000))),
         ('main_audio', 'bbb_a2'), ('ad_audio', 'bbb_a2'), ('tlang', 'en'), ('time_value', 'a b&c'),
     ]
+    stream = rng.choice(['bbb', 'bbb', 'tears', 'dflt', 'dflt'])
+    if stream == 'dflt':
+        # values that switch a saved per-stream default off again, or replace it
+        extras += [('events', 'none'), ('bugs', 'none'), ('playready__la_url', 'none'), ('events', ''),
+                   ('bugs', ''), ('depth', rng.choice(['1800', '2400', '60'])), ('events', 'none'), ('bugs', 'none')]
     for k, v in rng.sample(extras, rng.randrange(1, 5)):
         if k.startswith(('playready', 'marlin', 'clearkey', 'bugs')) and 'drm' not in params:
             if manifest in DRM_TEMPLATES and mode != 'odvod':
@@ -230,8 +235,7 @@ def gen_manifest_case(ctx: ShardCtx) -> dict:
         if k.startswith(('ping__', 'scte35__')):
             params.setdefault('events', k.split('__')[0])
         params[k] = v
-    return {'manifest': manifest, 'mode': mode, 'params': params, 'now': now.isoformat(),
-            'stream': rng.choice(['bbb', 'bbb', 'tears'])}
+    return {'manifest': manifest, 'mode': mode, 'params': params, 'now': now.isoformat(), 'stream': stream}
 
 
 def run_integration(ctx: ShardCtx, res: ShardResult) -> None:
@@ -245,6 +249,7 @@ def run_integration(ctx: ShardCtx, res: ShardResult) -> None:
     try:
         env.add_fixture_stream('bbb')
         env.add_fixture_stream('tears')
+        env.add_defaults_stream()
         client = env.client()
         cgi_map = OptionsRepository.get_cgi_map()
         by_full = {}
